@@ -424,3 +424,8 @@ RULES = [
     Rule("C15.N6", rule_N6, floor=10, doc="load resolves the right namespace"),
     Rule("C15.N7", rule_N7, floor=3, doc="legacy mapping"),
 ]
+
+from sa import exits as _exits_ms  # noqa: E402
+
+RULES.append(Rule("C15.MS", _exits_ms.make_state_rule("C15", "C15.MS", _exits_ms.SCOPES.get("C15", [])), floor=1,
+                  doc="no hidden module-level state on the anchored path: results do not depend on the history of the process (E17)"))
